@@ -57,7 +57,9 @@ type World struct {
 }
 
 func NewWorld(db *DB, budget int) *World {
-	return &World{DB: db, Budget: budget}
+	w := &World{DB: db, Budget: budget}
+	w.Trail.CheckSTO = true
+	return w
 }
 
 type frame struct {
@@ -158,6 +160,9 @@ func (m *Machine) Next() (ok bool, ball Term, err error) {
 		fr := m.goals
 		m.goals = fr.next
 		res, b, e := m.safeStep(fr)
+		if m.W.Trail.STO {
+			e = fmt.Errorf("%w: unification subject to occurs check (undefined by ISO)", ErrUnsupported)
+		}
 		if e != nil {
 			m.done = true
 			return false, nil, e
